@@ -5,7 +5,7 @@ use vcore::drive::{enum_strings, prop_par, Verdict};
 use vcore::rt::{self, digest_str, Acc, Args, Report};
 use vcore::sgr::{self, MColor, MStyle};
 
-const RULE: &str = "Inputs: exhaustively all 1- and 2-word (thorough: 3-word) descriptions over a 60-word vocabulary (names, normal, -1, attributes with no/no- prefixes, numbers, hex colours, near misses) and all '#'+3 and '#'+6 strings over {0 9 a f A F g G + - space e-acute}; grammar-generated descriptions of 0..6 words, and long ones of 15..1027 words around powers of two, in random order with random ASCII case and ASCII/Unicode white space; words glued together from 2..4 valid pieces (stacked negation prefixes, doubled attributes); single-edit mutations of valid descriptions (insert/delete/replace, incl. multi-byte characters inside hex words); arbitrary Unicode. Oracle: a reference parser written from the syntax in the property (Result<style, (error kind, word)>), and parse(print(style)) == style for every expressible style. Excluded (undetermined by the statement, counted): decimal numbers with an explicit '+'. Non-trivial = at least 2 words, or a '#' word, or an input the reference rejects (distinct by input string).";
+const RULE: &str = "Inputs: exhaustively all 1- and 2-word (thorough: 3-word) descriptions over a 60-word vocabulary (names, normal, -1, attributes with no/no- prefixes, numbers, hex colours, near misses) and all '#'+3 and '#'+6 strings over {0 9 a f A F g G + - space e-acute}; grammar-generated descriptions of 0..6 words, and long ones of 15..1027 words around powers of two, in random order with random ASCII case and ASCII/Unicode white space; words glued together from 2..4 valid pieces (stacked negation prefixes, doubled attributes); single-edit mutations of valid descriptions (insert/delete/replace, incl. multi-byte characters inside hex words); arbitrary Unicode. Oracle: a reference parser written from the syntax in the property (Result<style, (error kind, word)>; when a description has several offending words the error may name any of them, correctly classified), and parse(print(style)) == style for every expressible style. Excluded (undetermined by the statement, counted): decimal numbers with an explicit '+'. Non-trivial = at least 2 words, or a '#' word, or an input the reference rejects (distinct by input string).";
 
 #[derive(Debug, PartialEq, Eq, Clone)]
 enum RefErr {
@@ -88,6 +88,31 @@ fn reference(s: &str) -> Result<MStyle, RefErr> {
     Ok(st)
 }
 
+/// every word of a description that is an offender on its own account: each unknown word, and each
+/// colour word after the second colour. When a description has several, the property does not say
+/// which of them the error names.
+fn offenders(s: &str) -> Vec<RefErr> {
+    let mut out = vec![];
+    let mut colors = 0;
+    for word in s.split(char::is_whitespace).filter(|w| !w.is_empty()) {
+        let lw = word.to_ascii_lowercase();
+        let base = lw.strip_prefix("no-").or_else(|| lw.strip_prefix("no")).unwrap_or(lw.as_str());
+        if ATTRS.iter().any(|(n, _)| *n == base) {
+            continue;
+        }
+        match ref_color(&lw) {
+            Some(_) => {
+                if colors >= 2 {
+                    out.push(RefErr::Extra(word.to_owned()));
+                }
+                colors += 1;
+            }
+            None => out.push(RefErr::Unknown(word.to_owned())),
+        }
+    }
+    out
+}
+
 /// undetermined by the statement: skip
 fn excluded(s: &str) -> Option<&'static str> {
     for w in s.split(char::is_whitespace) {
@@ -113,10 +138,13 @@ fn check(s: &str) -> Result<bool, String> {
             }
         }
         (Err(e), Err(w)) => {
-            let (kind_ok, word, style) = match (e, w) {
-                (anstyle_git::Error::ExtraColor { style, word }, RefErr::Extra(x)) => (word == x, word.clone(), style.clone()),
-                (anstyle_git::Error::UnknownWord { style, word }, RefErr::Unknown(x)) => (word == x, word.clone(), style.clone()),
-                (anstyle_git::Error::ExtraColor { style, word }, _) | (anstyle_git::Error::UnknownWord { style, word }, _) => (false, word.clone(), style.clone()),
+            let _ = w;
+            // the error must name an offending word with its right classification; with several
+            // offenders any one of them (the leftmost is what `reference` reports in messages)
+            let all = offenders(s);
+            let (kind_ok, word, style) = match e {
+                anstyle_git::Error::ExtraColor { style, word } => (all.iter().any(|o| matches!(o, RefErr::Extra(x) if x == word)), word.clone(), style.clone()),
+                anstyle_git::Error::UnknownWord { style, word } => (all.iter().any(|o| matches!(o, RefErr::Unknown(x) if x == word)), word.clone(), style.clone()),
                 _ => (false, String::new(), String::new()),
             };
             if !kind_ok {
